@@ -143,6 +143,10 @@ def run(ctx):
     total = 0
     per_mut = {}
     extra_inputs = [
+        # a backslash is an ordinary character of a string literal (only the doubled quote is special): shortening must not
+        # leave a literal that ends in backslash + ONE quote
+        '(set-logic QF_S)\n(declare-const s String)\n(assert (= s "dir\\"""))\n(assert (str.contains s "a\\""b\\"""))\n(check-sat)\n',
+        '(set-logic QF_S)\n(declare-const s String)\n(assert (= s "\\"""))\n(assert (= s "x\\\\"))\n(check-sat)\n',
         # further ways of putting a symbol into a script (F68): a :named label, a match pattern, a lambda binder, define-const, a
         # formal behind a comment
         '(set-logic ALL)\n(declare-const v (_ BitVec 8))\n(assert (! (= v #x00) :named _v))\n(check-sat)\n',
